@@ -1,6 +1,7 @@
 """Domain 'shutdown' (M2s): EventBus.Shutdown vs blocked async handlers, context expiry, counting Close (C06)."""
 def corpus_cases(prop, part):
-    return [["closer 1 0", "async 2", "cancel", "shutdown", "release 2", "final"],
+    return [["closer 1 0", "async 1", "shutdownc", "release 1", "async 2", "shutdown", "release 2", "final"],
+            ["closer 1 0", "async 2", "cancel", "shutdown", "release 2", "final"],
             ["closer 1 0", "async 3", "shutdown", "release 2", "cancel", "release 1", "final"]]
 
 def out_kind(line):
@@ -26,6 +27,8 @@ def gen(rng, tier, n):
                 if inflight > 0 or done:
                     cancelled = True; lines.append("cancel")
                     if pending: pending = False; done = True
+            elif x < 0.8 and inflight > 0 and not pending and not done:
+                lines.append("shutdownc")       # a call that gives up (its own context ends): nothing is closed, a later call still waits
             elif not pending and not done and not (inflight == 0 and cancelled):
                 lines.append("shutdown")
                 if inflight == 0 or cancelled: done = True
